@@ -10,6 +10,13 @@ CLAIMED = {
  "C01": ("partial: the reference semantics (MiniAldor: typed AST, fuelled evaluator, renderer) is proved well defined (fuel monotonicity, determinism, layout-independent rendering, overload uniqueness; argument-order irrelevance and type soundness for named fragments); the compiler pipeline itself is not modelled: 'compiled output = eval' is decided by correspondence on generated programs through both routes.",
          "Lean 4 reference evaluator with well-definedness theorems + end-to-end correspondence on generated programs (interpreter and C routes)",
          "The expected output of each generated program is computed by a Lean evaluator whose well-definedness is proved; every run compiles the programs with the rebuilt compiler through -Ginterp and the C back end and compares stdout and exit class; disagreements are shrunk on the AST."),
+
+ "C03": ("partial: the termination-kind table (halt codes and messages regenerated from foam.h/foam_c.c/fint.c) is proved to give the same success/failure class, message and stdout contribution on both routes except for hardware faults (recorded finding); builtin-level agreement is C04's theorems; the interpreter's evaluator loop and the C emitter are not modelled and are covered by the three-route search over corpus and generated programs at six -Q levels.",
+         "translator (halt codes/messages) + Lean 4 case analysis + end-to-end three-route differential search (interp from source, interp from .ao, C executable) x {Q0,1,2,3,5,9}",
+         "Regenerated halt tables are re-proved to agree between routes each run; one program per termination kind and ~50 corpus/generated programs are run on three routes at six levels; differences are shrunk and classified by cause."),
+ "C07": ("partial: every character-indexed table access in the scanner front end (regenerated site list) is accounted for and proved in range for every word the scanner can produce; the exit status is proved non-zero exactly when errors were counted; termination and fault-freedom of the parser, macro expander and type-error paths cannot be expressed without modelling them and are covered by the fuzz search only (remaining fault classes are recorded findings; a new signature is a violation).",
+         "translator (clang AST: char-indexed array sites) + Lean 4 proof over hand model of the scanner dispatch + scanner-token correspondence + classified fuzz search with stable fault signatures",
+         "Site table regenerated and re-proved each run; the scanner model is compared with -WTr+sc token dumps on ~11k inputs; ~5.6k mutated/random sources are compiled under timeout and every abnormal outcome is classified by signature."),
  "C04": ("full for integer/boolean/character builtins (per builtin and per evaluator a regenerated theorem against a hand-written reference, plus Int-level characterisations), agreement-only for float and big-integer builtins (same function of uninterpreted primitives under stated primitive laws); libc-bound Format*/Scan* builtins by correspondence only.",
          "translator (clang AST of of_cfold.c, fint.c, genc.c table, foam_c.*) regenerating Lean definitions + generated Lean theorems + self-check of the translator against the real folder/interpreter/C runtime on the boundary product",
          "Every run regenerates Lean definitions of the three evaluators from the current C sources and re-proves 671 theorems against a hand-written reference; the translator's reading of C is validated by executing the real folder, interpreter and C runtime on the boundary product."),
